@@ -394,6 +394,11 @@ type RunObs struct {
 	Trunc  bool      `json:"trunc,omitempty"`
 	Stuck  bool      `json:"stuck,omitempty"` // plan hung and this run saw no event during the last second before the snapshot
 	lastAt time.Time
+	// timing, for telling machine-load disturbances from violations (not compared)
+	maxN     int         // largest attempt count written so far in this run
+	writeAt  []time.Time // writeAt[i]: when the first write showing i+1 attempts returned
+	deadline []time.Time // deadline[k]: ctx.Deadline() of invocation k (zero if none)
+	ended    []bool      // ended[k]: invocation k logged its End
 }
 
 type ActObs struct {
@@ -536,6 +541,10 @@ func (v LogVault) UpdateAction(ctx context.Context, a *workflow.Action) error {
 		} else {
 			rec.cur.add(ev)
 			rec.cur.Last = im
+			for n := len(im.Atts); rec.cur.maxN < n; {
+				rec.cur.maxN++
+				rec.cur.writeAt = append(rec.cur.writeAt, time.Now())
+			}
 		}
 		rec.lastEv = ev
 	}
@@ -543,7 +552,11 @@ func (v LogVault) UpdateAction(ctx context.Context, a *workflow.Action) error {
 	return nil
 }
 
-const lateLag = 2 * time.Millisecond
+// after its context is cancelled a plugin waits for the engine's write of that attempt before it returns (so that
+// the engine, which first looks for an answer that already arrived when it notices the deadline, cannot pick up
+// the late answer); engineWriteCap bounds that wait (an engine that waits for the plugin instead is then observed
+// recording the plugin's late answer).
+const engineWriteCap = 150 * time.Millisecond
 
 // behave is the hplug.Behaviour of the action and the check plugin.
 func behave(ctx context.Context, p *hplug.Plugin, req any) (any, *plugins.Error) {
@@ -572,8 +585,11 @@ func behave(ctx context.Context, p *hplug.Plugin, req any) (any, *plugins.Error)
 	run.Ctx = append(run.Ctx, false)
 	planned := rec.spec.planned(k)
 	run.Eff = append(run.Eff, planned)
+	dl, _ := ctx.Deadline()
+	run.deadline = append(run.deadline, dl)
+	run.ended = append(run.ended, false)
 	if ctx.Err() != nil {
-		pr.disturbed = append(pr.disturbed, fmt.Sprintf("%s call %d entered after its deadline", rq.Path, k))
+		pr.disturbed = append(pr.disturbed, fmt.Sprintf("late_start: %s call %d entered after its deadline", rq.Path, k))
 	}
 	run.add("AStart")
 	rec.inflight++
@@ -581,37 +597,39 @@ func behave(ctx context.Context, p *hplug.Plugin, req any) (any, *plugins.Error)
 	mu.Unlock()
 
 	eff := planned
-	capped := false
 	if planned == OOverrun {
 		select {
 		case <-ctx.Done():
 		case <-time.After(1500 * time.Millisecond):
 			// the deadline (15-25 ms) passed long ago and the context was never cancelled: an observation
 			// (ctx flag false for an overrun), not a disturbance
-			capped = true
 		}
 	}
-	if ctx.Err() != nil {
-		// the engine has stopped listening (it selects on ctx.Done()); return a little later so that its select
-		// cannot see our answer and the expiry at the same instant
-		time.Sleep(lateLag)
+	cancelled := ctx.Err() != nil // decided once
+	if cancelled {
+		eff = OOverrun
+		for t0 := time.Now(); time.Since(t0) < engineWriteCap; {
+			mu.Lock()
+			written := run.maxN > k
+			mu.Unlock()
+			if written {
+				break
+			}
+			time.Sleep(100 * time.Microsecond)
+		}
 	}
 
 	mu.Lock()
-	cancelled := ctx.Err() != nil
-	if cancelled {
-		eff = OOverrun
-	}
-	_ = capped
 	if eff != planned {
-		pr.disturbed = append(pr.disturbed, fmt.Sprintf("%s call %d planned %s delivered %s", rq.Path, k, outcomeName[planned], outcomeName[eff]))
+		pr.disturbed = append(pr.disturbed, fmt.Sprintf("late_start: %s call %d planned %s delivered %s", rq.Path, k, outcomeName[planned], outcomeName[eff]))
 	} else if eff != OOverrun {
-		if dl, ok := ctx.Deadline(); ok && time.Until(dl) < 4*time.Millisecond {
-			pr.disturbed = append(pr.disturbed, fmt.Sprintf("%s call %d returned within 4ms of its deadline", rq.Path, k))
+		if !dl.IsZero() && time.Until(dl) < 4*time.Millisecond {
+			pr.disturbed = append(pr.disturbed, fmt.Sprintf("near_deadline: %s call %d returned within 4ms of its deadline", rq.Path, k))
 		}
 	}
 	run.Ctx[k] = cancelled
 	run.Eff[k] = eff
+	run.ended[k] = true
 	run.add(fmt.Sprintf("(AEnd %s)", outcomeName[eff]))
 	rec.inflight--
 	pr.inflight--
@@ -824,6 +842,17 @@ func runBatch(specs []*PlanSpec, seed uint64) []*PlanObs {
 			for _, r := range ob.Runs {
 				rc := *r
 				rc.Stuck = out[i].Hang && time.Since(r.lastAt) > time.Second
+				for k := 0; k < r.Calls && k < len(r.Last.Atts) && k < len(r.writeAt); k++ {
+					// late_end: the plugin returned in time (its context was not cancelled when it logged its End), the
+					// engine nevertheless recorded a timeout, and it did so after the invocation's deadline: the answer
+					// travelled too slowly (plugin goroutine descheduled before its channel send). Machine load; re-run.
+					// The same signature with the write BEFORE the deadline is not excused.
+					if r.ended[k] && r.Eff[k] != OOverrun && r.Last.Atts[k].Err == "(EEngine false)" &&
+						!r.deadline[k].IsZero() && !r.writeAt[k].Before(r.deadline[k]) {
+						pr.disturbed = append(pr.disturbed, fmt.Sprintf("late_end: %s call %d returned %s in time but the engine recorded a timeout %v after the deadline",
+							ob.Path, k, outcomeName[r.Eff[k]], r.writeAt[k].Sub(r.deadline[k])))
+					}
+				}
 				if len(r.Last.Atts) > r.Calls {
 					// an attempt without an invocation: the worker pool did not get to start the plugin before the
 					// attempt's deadline (Pool.Submit gives up when its context is done). Machine load; re-run.
@@ -1000,6 +1029,13 @@ func main() {
 
 	final := map[string]*PlanObs{}
 	rounds := map[string]int{}
+	causes := map[string][]string{} // per plan: why it was re-run (late_start / late_end / near_deadline / not-entered / hang / harness)
+	kindOf := func(d string) string {
+		if i := strings.Index(d, ":"); i > 0 {
+			return d[:i]
+		}
+		return "other"
+	}
 	var harnessErrs []string
 	todo := specs
 	for round := 0; round < 4 && len(todo) > 0; round++ {
@@ -1046,6 +1082,20 @@ func main() {
 				rounds[sp.id()] = round
 				if (o.Hang || len(o.Disturbed) > 0 || strings.HasPrefix(o.Note, "harness:")) && round < 3 {
 					again = append(again, sp)
+					seen := map[string]bool{}
+					if o.Hang {
+						seen["hang"] = true
+					}
+					if strings.HasPrefix(o.Note, "harness:") {
+						seen["harness"] = true
+					}
+					for _, d := range o.Disturbed {
+						seen[kindOf(d)] = true
+					}
+					for k := range seen {
+						causes[sp.id()] = append(causes[sp.id()], k)
+					}
+					sort.Strings(causes[sp.id()])
 				}
 			}
 		}
@@ -1072,7 +1122,11 @@ func main() {
 			// still disturbed by machine load after three re-runs: what the engine saw is ambiguous; not compared
 			c.Note = "dropped: disturbed: " + strings.Join(o.Disturbed, "; ")
 			c.Coq = "[]"
-			c.Dist = map[string]any{"dropped": true, "round": rounds[sp.id()]}
+			kinds := map[string]int{}
+			for _, d := range o.Disturbed {
+				kinds[kindOf(d)]++
+			}
+			c.Dist = map[string]any{"dropped": true, "round": rounds[sp.id()], "dropped_kinds": kinds, "rerun_causes": causes[sp.id()]}
 			w.Put(c)
 			continue
 		}
@@ -1126,7 +1180,7 @@ func main() {
 		c.Hash = core.Hash(hashParts...)
 		c.Dist = map[string]any{"actions": len(acts), "ran": ran, "never_ran": neverRan, "runs": runsTotal, "outcomes": outcomes,
 			"retries": retries, "script_len": scriptLen, "calls": callsH, "status": statusH, "combos_run": combosRun,
-			"kinds": kinds, "round": rounds[sp.id()], "hang": o.Hang, "disturbed": len(o.Disturbed), "wall_ms": o.WallMs}
+			"kinds": kinds, "round": rounds[sp.id()], "rerun_causes": causes[sp.id()], "hang": o.Hang, "disturbed": len(o.Disturbed), "wall_ms": o.WallMs}
 		c.Observed = o
 		c.Note = o.Note
 		if o.Hang {
